@@ -26,7 +26,7 @@ TIMEOUT = {"quick": 900, "thorough": 3600}
 SCTP_CLONES = {"quick": ['rand3', 'exh9'], "thorough": ['rand10', 'rand11', 'exh15']}
 OUTCOMES = ["refused", "inprogress_ok_gone", "inprogress_fail", "cea_rejected", "cea_timeout", "gone", "error", "dpr",
             "inbound_dup_closed", "pending_inbound_lost", "inbound_dup_then_dpr", "write_error",
-            "inbound_then_gone", "dpr_late_dwa"]
+            "inbound_then_gone", "dpr_late_dwa", "dpr_repeated"]
 FLAGSETS = [
     dict(persistent=True, always_reconnect=False, reconnect_wait=3, addr=True),
     dict(persistent=True, always_reconnect=True, reconnect_wait=2, addr=True),
@@ -364,7 +364,7 @@ class Case:
             h.settle()
             self.new_connects()
             self.note_loss()
-        elif outcome in ("dpr", "dpr_late_dwa"):
+        elif outcome in ("dpr", "dpr_late_dwa", "dpr_repeated"):
             dwr = None
             if outcome == "dpr_late_dwa":
                 # the node's own watchdog request is under way when the DPR arrives (sent by hand: the idle timer of
@@ -382,6 +382,17 @@ class Case:
             fr = [f for f in p.frames[seen:] if f.h.code == 282 and not f.is_request]
             if len(fr) != 1 or fr[0].result_code != 2001 or (fr[0].h.hbh, fr[0].h.e2e) != (77, 78):
                 self.witness("dpr.not_answered_with_2001_dpa", {"frames": [repr(f) for f in p.frames[seen:]]})
+            if outcome == "dpr_repeated":
+                # the peer repeats its DPR under new identifiers (its DPA got lost, say): every received DPR is answered
+                seen = len(p.frames)
+                p.send(M.dpr(PEER, self.REALM, hbh=79, e2e=80))
+                h.settle()
+                p.drain()
+                fr = [f for f in p.frames[seen:] if f.h.code == 282 and not f.is_request]
+                if len(fr) != 1 or fr[0].result_code != 2001 or (fr[0].h.hbh, fr[0].h.e2e) != (79, 80):
+                    self.witness("dpr.repeated_dpr_not_answered_with_2001_dpa",
+                                 {"frames": [repr(f) for f in p.frames[seen:]]})
+                self.run.cov["repeated_dpr"] = self.run.cov.get("repeated_dpr", 0) + 1
             from diameter.node.node import NotRoutable
             from diameter.message.commands import CreditControlRequest
             if dwr is not None:
